@@ -170,7 +170,7 @@ def build_harness(pid, cfg, extra_defs=()):
 
 
 # ---------------------------------------------------------------- regenerated constants
-def gen_consts_cpp(pid, includes, entries, outfile, prelude='', module_comment=''):
+def gen_consts_cpp(pid, includes, entries, outfile, prelude='', module_comment='', extra_sources=()):
     """Compile a tiny program against /repo headers that prints Gallina definitions
     of the named C++ constant expressions (all as N). entries: [(coq_name, c_expr)]."""
     os.makedirs(os.path.join(BUILD, pid), exist_ok=True)
@@ -192,8 +192,8 @@ def gen_consts_cpp(pid, includes, entries, outfile, prelude='', module_comment='
     with open(cpp, 'w') as f:
         f.write('\n'.join(body) + '\n')
     flags = ['-std=gnu++11', '-DHAVE_CONFIG_H', '-w', '-DPID_DATA_DIR="x"'] + include_flags()
-    p = subprocess.run(['ccache', 'g++'] + flags + [cpp, '-o', exe], stdout=subprocess.PIPE,
-                       stderr=subprocess.PIPE)
+    p = subprocess.run(['ccache', 'g++'] + flags + [cpp] + [repo_path(x) for x in extra_sources] +
+                       ['-o', exe], stdout=subprocess.PIPE, stderr=subprocess.PIPE)
     if p.returncode != 0:
         return 'genconsts compile error:\n' + p.stderr.decode(errors='replace')[-3000:]
     p = subprocess.run([exe], stdout=subprocess.PIPE, stderr=subprocess.PIPE)
